@@ -82,28 +82,6 @@ func contentVariant(ops []world.Op) ([]world.Op, bool) {
 	return ops2, seenL1 || seenL2
 }
 
-// orderVariant: the same operations in another order on L1 — the first operation that adds an L1 info leaf (an L1
-// deposit, a verification) and is preceded by a leaf-adding operation of another kind moves to the front, so the L1
-// info leaf indices that cover a given deposit count differ between the dropped fork and the canonical chain.
-func orderVariant(ops []world.Op) ([]world.Op, bool) {
-	adds := func(k world.OpKind) bool { return k == world.L1Deposit || k == world.VerifyRollupB || k == world.VerifyL2 }
-	first := -1
-	for j, o := range ops {
-		if !adds(o.Kind) {
-			continue
-		}
-		if first < 0 {
-			first = j
-			continue
-		}
-		if o.Kind != ops[first].Kind && (o.Kind == world.L1Deposit || ops[first].Kind == world.L1Deposit) {
-			ops2 := append([]world.Op{o}, ops[:j]...)
-			return append(ops2, ops[j+1:]...), true
-		}
-	}
-	return nil, false
-}
-
 // warmService asks the service every question of the claim flow for every bridge and leaf of world w2 (answers ignored):
 // a service that has been serving requests while the stores were on another fork.
 func warmService(svc *bridgeservice.BridgeService, w2 *world.World) {
@@ -174,7 +152,7 @@ func run(c *mc.Ctx, u mc.Unit) {
 	if v := c.Choose(3, "stores-synced-another-fork-first"); v > 0 {
 		ops2, ok := contentVariant(p.Ops)
 		if v == 2 {
-			ops2, ok = orderVariant(p.Ops)
+			ops2, ok = world.OrderVariant(p.Ops)
 		}
 		if ok {
 			if ok, herr := loadDroppedFork(ctx, st, svc, ops2); herr != nil {
